@@ -30,7 +30,8 @@ REQUIRED = ["assort_pairs_compared", "assort_pairs_nontrivial", "exhaustive_tabl
             "reader_files_where_a_candidate_shares_its_name_with_the_contest_or_ballot", "reader_files_larger_than_4_MiB",
             "reader_files_without_a_final_line_break",
             "contests_with_eleven_candidates_and_two_digit_rank_numbers",
-            "reader_files_with_a_row_whose_first_rank_field_is_blank"]
+            "reader_files_with_a_row_whose_first_rank_field_is_blank",
+            "reader_files_declaring_ten_or_more_contests"]
 ASSUMPTIONS = ["rankings are duplicate-free (the property's quantifier)", "candidate ids are strings in both readers",
                "JSON mapping per the RAIRE documentation: WINNER_ONLY <-> NEB, IRV_ELIMINATION + already_eliminated <-> NEN"]
 EXHAUSTIVE = "c14.assort enumerates every partial ranking x ordered pair x eliminated set for each n listed in the counters"
@@ -166,7 +167,7 @@ def run_exhaustive(case, rec):
 
 
 def gen_file(rng):
-    ncon = rng.randint(1, 3)
+    ncon = rng.randint(1, 3) if rng.random() < 0.93 else rng.choice((10, 12, 21))   # (a county-wide file: the count has two digits)
     cons = [str(300 + j) for j in range(ncon)]
     cands = {c: [str(rng.randint(1, 9) * 10 + k) for k in range(rng.randint(2, 5))] for c in cons}
     if rng.random() < 0.25:
@@ -239,6 +240,8 @@ def run_file(case, rec):
             f.write("\n".join(lines) + ("" if no_eol else "\n"))
         if no_eol:
             rec.count("reader_files_without_a_final_line_break")
+        if int(lines[0]) >= 10:
+            rec.count("reader_files_declaring_ten_or_more_contests")
         if any(",," in ln for ln in lines[1 + int(lines[0]):]):
             rec.count("reader_files_with_a_row_whose_first_rank_field_is_blank")
         if any(ord(ch) > 127 for ln in lines for ch in ln):
